@@ -181,6 +181,15 @@ func genReq(r *mon.Rand, i int, rawOnly bool) *areq {
 	return a
 }
 
+// reader: half of the streams come from a reader that returns short reads, half from
+// one that always fills the caller's buffer (so whole copy buffers are written).
+func (a *areq) reader(r *mon.Rand) io.Reader {
+	if r.Bool() {
+		return bytes.NewReader(append([]byte{}, a.Body...))
+	}
+	return &shortReader{append([]byte{}, a.Body...), r.Fork()}
+}
+
 func (a *areq) build(r *mon.Rand, req *protocol.Request) {
 	u := "http://peer" + a.Path
 	if a.Query != "" {
@@ -195,9 +204,9 @@ func (a *areq) build(r *mon.Rand, req *protocol.Request) {
 	case "bytes":
 		req.SetBody(a.Body)
 	case "stream-known":
-		req.SetBodyStream(&shortReader{append([]byte{}, a.Body...), r.Fork()}, len(a.Body))
+		req.SetBodyStream(a.reader(r), len(a.Body))
 	case "stream-unknown":
-		req.SetBodyStream(&shortReader{append([]byte{}, a.Body...), r.Fork()}, -1)
+		req.SetBodyStream(a.reader(r), -1)
 	case "stream-limited":
 		req.SetBodyStream(io.LimitReader(&shortReader{append(append([]byte{}, a.Body...), "EXTRA-BEYOND-LIMIT"...), r.Fork()}, int64(len(a.Body))), -1)
 	case "form":
